@@ -69,6 +69,11 @@ def run(res, tier, seed, shard, nshards):
             for silent_from in (0, 2):
                 jobs.append(("silent-dt", interval, to, 0.0, silent_from, "none", T))
             jobs.append(("responsive-dt", interval, to, 0.0, "half", "periodic", T))
+    # a silent peer (no pong ever) that keeps pinging / sends pongs at the wrong moments is still a silent peer
+    for interval, to in ((1.0, 0.4), (2.0, 0.5), (3.0, 1.0), (0.55, 0.5)):
+        for silent_from in (0, 2):
+            for traffic in ("server-pings", "server-pongs-early"):
+                jobs.append(("silent", interval, to, 0.0, silent_from, traffic))
     # unsolicited pongs from a peer that answers every ping
     for interval, to in ((1.0, 0.4), (2.0, 0.5), (3.0, 1.0)):
         for latency in ("zero", "half"):
@@ -166,6 +171,18 @@ def traffic_script(kind, phase, to, interval, until):
         while t < until:
             t += to * 0.999
             script.append((t, "frames", text("n")))
+    elif kind == "server-pings":
+        # the peer runs a keepalive of its own (PING frames, which the client answers) but never answers the client's pings
+        step = to * 0.45
+        while t < until:
+            t += step
+            script.append((t, "frames", R.encode(R.PING, b"srv-keepalive")))
+    elif kind == "server-pongs-early":
+        # unsolicited pongs just *before* each client ping is due: they answer nothing
+        k = 2
+        while k * interval < until:
+            script.append((k * interval - min(0.01, to / 20), "frames", R.encode(R.PONG, b"")))
+            k += 1
     return script
 
 
